@@ -21,6 +21,7 @@ type c12Event struct {
 	// silence (-> 4), wrongmsg (-> 5), fin, rst
 	Kind  string `json:"kind"`
 	Code  uint8  `json:"code,omitempty"`
+	Sub   *uint8 `json:"sub,omitempty"` // subcode of a received / handler NOTIFICATION (nil: 1 / 2)
 	State string `json:"state"`
 	Out   bool   `json:"out"`
 	Both  bool   `json:"both,omitempty"` // the other direction's connection is parked in OpenSent meanwhile
@@ -52,9 +53,13 @@ const (
 	c12Amnesia = 300 * time.Second
 )
 
-func c12Prop(t *testing.T, r *hx.Run) func(c c12Case) hx.Verdict {
+func c12Prop(t *testing.T, r *hx.Run, subs ...string) func(c c12Case) hx.Verdict {
+	subName := "histories"
+	if len(subs) > 0 {
+		subName = subs[0]
+	}
 	return func(c c12Case) hx.Verdict {
-		r.SetCurrent("histories", c)
+		r.SetCurrent(subName, c)
 		nd, nn := 0, 0
 		sig := ""
 		for _, e := range c.Events {
@@ -63,7 +68,11 @@ func c12Prop(t *testing.T, r *hx.Run) func(c c12Case) hx.Verdict {
 			} else {
 				nn++
 			}
-			sig += fmt.Sprintf("%s%d%s%v/%d,", e.Kind, e.Code, e.State[:5], e.Out, e.WaitMs/1000)
+			sub := -1
+			if e.Sub != nil {
+				sub = int(*e.Sub)
+			}
+			sig += fmt.Sprintf("%s%d.%d%s%v/%d,", e.Kind, e.Code, sub, e.State[:5], e.Out, e.WaitMs/1000)
 		}
 		v := hx.Verdict{Class: fmt.Sprintf("passive=%v/damping=%d/nondamping=%d", c.Passive, min(nd, 3), min(nn, 2))}
 		if nd >= 2 || (nd >= 1 && nn >= 1) {
@@ -171,7 +180,11 @@ func c12Prop(t *testing.T, r *hx.Run) func(c c12Case) hx.Verdict {
 				// the event
 				switch e.Kind {
 				case "recv":
-					cn.RemoteSend(wire.Notif{Code: e.Code, Sub: 1}.Frame(), nil)
+					sub := uint8(1)
+					if e.Sub != nil {
+						sub = *e.Sub
+					}
+					cn.RemoteSend(wire.Notif{Code: e.Code, Sub: sub}.Frame(), nil)
 				case "marker":
 					b := wire.Keepalive()
 					b[3] = 0
@@ -181,7 +194,11 @@ func c12Prop(t *testing.T, r *hx.Run) func(c c12Case) hx.Verdict {
 					o.Version = 3
 					cn.RemoteSend(o.Frame(), nil)
 				case "handler":
-					cn.RemoteSend(wire.Frame(wire.TypeUpdate, world.MagicUpdate(e.Code, 2, nil)), nil)
+					hsub := uint8(2)
+					if e.Sub != nil {
+						hsub = *e.Sub
+					}
+					cn.RemoteSend(wire.Frame(wire.TypeUpdate, world.MagicUpdate(e.Code, hsub, nil)), nil)
 				case "silence":
 					w.Advance(3*time.Second + time.Millisecond)
 				case "wrongmsg":
@@ -328,11 +345,19 @@ func genC12(rt *rapid.T) c12Case {
 		switch e.Kind {
 		case "recv":
 			e.Code = pick[uint8](rt, "code", 1, 2, 3, 4, 5, 7, 6, 6, 0, 8, 255, rapid.Byte().Draw(rt, "coder"))
+			if rapid.Bool().Draw(rt, "withsub") {
+				sub := pick[uint8](rt, "sub", 0, 1, 2, 3, 4, 5, 6, 7, 8, 9, 10, 255, rapid.Byte().Draw(rt, "subr"))
+				e.Sub = &sub
+			}
 		case "badopen":
 			e.State = stOpenSent
 		case "handler":
 			e.State = stEstablished
 			e.Code = pick[uint8](rt, "hcode", 3, 7, 6, 1)
+			if rapid.Bool().Draw(rt, "withhsub") {
+				sub := pick[uint8](rt, "hsub", 0, 1, 2, 4, 8, 255, rapid.Byte().Draw(rt, "hsubr"))
+				e.Sub = &sub
+			}
 		case "silence":
 			e.State = pick(rt, "sstate", stOpenConfirm, stEstablished)
 		}
@@ -356,6 +381,25 @@ func TestC12(t *testing.T) {
 	r := hx.Start(t, "C12")
 	defer r.Finish(t)
 	hx.Rapid(r, t, "histories", r.N(3000, 30000), genC12, c12Prop(t, r))
+	// damping depends on the code alone: every subcode of every code 1..7 received, and every
+	// subcode of a Cease / UPDATE error returned by the handler
+	hx.Enum(r, t, "every_code_x_subcode", 9*256, func(yield func(c12Case) bool) {
+		for sub := 0; sub < 256; sub++ {
+			sb := uint8(sub)
+			for code := uint8(1); code <= 7; code++ {
+				e := c12Event{Kind: "recv", Code: code, Sub: &sb, State: allStates[(sub+int(code))%3], Out: (sub/3)%2 == 0, WaitMs: 0}
+				if !yield(c12Case{Passive: sub%5 == 0, Events: []c12Event{e}}) {
+					return
+				}
+			}
+			for _, code := range []uint8{6, 3} {
+				e := c12Event{Kind: "handler", Code: code, Sub: &sb, State: stEstablished, Out: sub%2 == 0}
+				if !yield(c12Case{Events: []c12Event{e}}) {
+					return
+				}
+			}
+		}
+	}, c12Prop(t, r, "every_code_x_subcode"))
 	// an inbound connection racing the protocol error, with each schedule point held in turn
 	reps := r.N(2, 12)
 	hx.Enum(r, t, "inbound_races_error", 0, func(yield func(c12RaceCase) bool) {
